@@ -122,6 +122,10 @@ def read_dump(path):
         st = {}
         for m in re.finditer(r'^/\\ (\w+) = (.*?)(?=^/\\ \w+ = |\Z)', block, flags=re.M | re.S):
             st[m.group(1)] = parse_tla(m.group(2))
+        if not st:          # a spec with a single variable is dumped without the conjunction bullet
+            m = re.match(r'\s*(\w+) = (.*)\Z', block, flags=re.S)
+            if m:
+                st[m.group(1)] = parse_tla(m.group(2))
         yield st
 
 
